@@ -1,1 +1,239 @@
-From SFV Require Import FockAxes.Model FockAxes.Lists FockAxes.Proofs.
+(* FockAxes — locality corollaries, ops.mix commutes with gate application, _apply_channel, alloc. *)
+From Coq Require Import List Arith Bool Lia.
+Import ListNotations.
+From SFV Require Import FockAxes.Model FockAxes.Lists FockAxes.Proofs FockAxes.TwoMode.
+
+(* x agrees with idx on every axis that is not a target *)
+Definition agrees_off (taxes idx x : list nat) : Prop :=
+  length x = length idx /\ forall a, ~ In a taxes -> nth a x 0 = nth a idx 0.
+
+Lemma put_agrees_off idx taxes j : agrees_off taxes idx (put idx taxes j).
+Proof. split; [apply length_put|]. intros a Ha. now apply put_spectator. Qed.
+
+(* ---------------------------------------------------------------- small list facts *)
+
+Lemma nth_firstn_lt (l : list nat) k i : i < k -> nth i (firstn k l) 0 = nth i l 0.
+Proof.
+  revert k i. induction l as [|x r IH]; intros k i Hi.
+  - now rewrite firstn_nil.
+  - destruct k; [lia|]. destruct i; simpl; auto. apply IH. lia.
+Qed.
+
+Lemma nth_skipn_add (l : list nat) k i : nth i (skipn k l) 0 = nth (k + i) l 0.
+Proof.
+  revert k. induction l as [|x r IH]; intros k.
+  - rewrite skipn_nil. destruct (k + i); destruct i; reflexivity.
+  - destruct k; simpl; auto.
+Qed.
+
+Lemma index_of_map_inj (f : nat -> nat) a l :
+  (forall x y, f x = f y -> x = y) -> index_of (f a) (map f l) = index_of a l.
+Proof.
+  intros Hf. induction l as [|x r IH]; simpl; auto.
+  destruct (Nat.eqb_spec (f a) (f x)) as [E|E]; destruct (Nat.eqb_spec a x) as [E'|E']; auto.
+  - apply Hf in E. congruence.
+  - subst. congruence.
+Qed.
+
+Definition evens (n : nat) (idx : list nat) := gather idx (map (fun i => 2 * i) (seq 0 n)).
+Definition odds (n : nat) (idx : list nat) := gather idx (map (fun i => 2 * i + 1) (seq 0 n)).
+
+Lemma length_evens n idx : length (evens n idx) = n.
+Proof. unfold evens. now rewrite length_gather, map_length, seq_length. Qed.
+Lemma length_odds n idx : length (odds n idx) = n.
+Proof. unfold odds. now rewrite length_gather, map_length, seq_length. Qed.
+
+Lemma nth_evens n idx a : a < n -> nth a (evens n idx) 0 = nth (2 * a) idx 0.
+Proof.
+  intros Ha. unfold evens. rewrite nth_gather by (now rewrite map_length, seq_length).
+  now rewrite nth_map_seq.
+Qed.
+Lemma nth_odds n idx a : a < n -> nth a (odds n idx) 0 = nth (2 * a + 1) idx 0.
+Proof.
+  intros Ha. unfold odds. rewrite nth_gather by (now rewrite map_length, seq_length).
+  now rewrite nth_map_seq.
+Qed.
+
+Lemma gather_rows n idx modes :
+  (forall a, In a modes -> a < n) -> gather idx (row_axes modes) = gather (evens n idx) modes.
+Proof.
+  intros H. unfold row_axes, gather. rewrite map_map. apply map_ext_in. intros a Ha.
+  symmetry. apply nth_evens. auto.
+Qed.
+Lemma gather_cols n idx modes :
+  (forall a, In a modes -> a < n) -> gather idx (col_axes modes) = gather (odds n idx) modes.
+Proof.
+  intros H. unfold col_axes, gather. rewrite map_map. apply map_ext_in. intros a Ha.
+  symmetry. apply nth_odds. auto.
+Qed.
+
+Lemma mem_rows_cols_even a modes : mem (2 * a) (row_axes modes ++ col_axes modes) = mem a modes.
+Proof.
+  rewrite <- div2_mem. f_equal. replace (2 * a) with (a * 2) by lia. now rewrite Nat.div_mul.
+Qed.
+Lemma mem_rows_cols_odd a modes : mem (2 * a + 1) (row_axes modes ++ col_axes modes) = mem a modes.
+Proof.
+  rewrite <- div2_mem. f_equal. replace (2 * a + 1) with (1 + a * 2) by lia.
+  now rewrite Nat.div_add.
+Qed.
+
+Lemma evens_put n modes idx j :
+  length idx = n * 2 -> length j = 2 * length modes ->
+  evens n (put idx (row_axes modes ++ col_axes modes) j) = put (evens n idx) modes (firstn (length modes) j).
+Proof.
+  intros Hl Hj. apply (nth_ext _ _ 0 0); [now rewrite length_put, !length_evens|].
+  intros a Ha. rewrite length_evens in Ha.
+  rewrite nth_evens by auto. rewrite nth_put by lia. rewrite nth_put by (now rewrite length_evens).
+  rewrite mem_rows_cols_even.
+  destruct (mem a modes) eqn:E.
+  - apply mem_In in E.
+    rewrite index_of_app_l by (unfold row_axes; apply in_map_iff; eauto).
+    unfold row_axes. rewrite (index_of_map_inj (fun i => 2 * i)) by (intros; lia).
+    rewrite nth_firstn_lt; auto. now apply index_of_lt.
+  - now rewrite nth_evens.
+Qed.
+
+Lemma odds_put n modes idx j :
+  length idx = n * 2 -> length j = 2 * length modes ->
+  odds n (put idx (row_axes modes ++ col_axes modes) j) = put (odds n idx) modes (skipn (length modes) j).
+Proof.
+  intros Hl Hj. apply (nth_ext _ _ 0 0); [now rewrite length_put, !length_odds|].
+  intros a Ha. rewrite length_odds in Ha.
+  rewrite nth_odds by auto. rewrite nth_put by lia. rewrite nth_put by (now rewrite length_odds).
+  rewrite mem_rows_cols_odd.
+  destruct (mem a modes) eqn:E.
+  - apply mem_In in E.
+    rewrite index_of_app_r.
+    2:{ unfold row_axes. rewrite in_map_iff. intros [x [Hx _]]. lia. }
+    unfold row_axes, col_axes. rewrite map_length.
+    rewrite (index_of_map_inj (fun i => 2 * i + 1)) by (intros; lia).
+    now rewrite nth_skipn_add.
+  - now rewrite nth_odds.
+Qed.
+
+Section Locality.
+  Context {V : Type}.
+  Notation tensor := (@tensor V).
+
+  (* ------------------------------------------------------------ locality (C05) *)
+
+  Theorem locality_pure (F : tensor -> tensor) n modes (psi psi' : tensor) idx :
+    respects_shape (length modes) F -> good_targets n modes -> modes <> [] -> length idx = n ->
+    (forall x, agrees_off modes idx x -> psi x = psi' x) ->
+    apply_gate_pure F n modes psi idx = apply_gate_pure F n modes psi' idx.
+  Proof.
+    intros HF Hg Hne Hl H. rewrite !fock_axes_pure by auto.
+    apply HF. intros j _. apply H. apply put_agrees_off.
+  Qed.
+
+  Theorem locality_mixed (G : tensor -> tensor) n modes (rho rho' : tensor) idx :
+    respects_shape (2 * length modes) G -> good_targets n modes -> modes <> [] -> length idx = n * 2 ->
+    (forall x, agrees_off (row_axes modes ++ col_axes modes) idx x -> rho x = rho' x) ->
+    apply_gate_mixed G n modes rho idx = apply_gate_mixed G n modes rho' idx.
+  Proof.
+    intros HG Hg Hne Hl H. rewrite !fock_axes_mixed by auto.
+    apply HG. intros j _. apply H. apply put_agrees_off.
+  Qed.
+
+  Theorem locality_twomode_pure (F : tensor -> tensor) n t1 t2 (psi psi' : tensor) idx :
+    respects_shape 2 F -> t1 < n -> t2 < n -> t1 <> t2 -> length idx = n ->
+    (forall x, agrees_off [t1; t2] idx x -> psi x = psi' x) ->
+    apply_twomode_pure F n t1 t2 psi idx = apply_twomode_pure F n t1 t2 psi' idx.
+  Proof.
+    intros HF H1 H2 Hne Hl H. rewrite !twomode_pure_correct by auto.
+    apply HF. intros j _. apply H. apply put_agrees_off.
+  Qed.
+
+  Theorem locality_twomode_mixed (F Fc : tensor -> tensor) n m1 m2 (rho rho' : tensor) idx :
+    respects_shape 2 F -> respects_shape 2 Fc -> m1 < n -> m2 < n -> m1 <> m2 -> length idx = 2 * n ->
+    (forall x, agrees_off [2 * m1; 2 * m2; 2 * m1 + 1; 2 * m2 + 1] idx x -> rho x = rho' x) ->
+    apply_twomode_mixed F Fc n m1 m2 rho idx = apply_twomode_mixed F Fc n m1 m2 rho' idx.
+  Proof.
+    intros HF HFc H1 H2 Hne Hl H. rewrite !twomode_mixed_correct by auto.
+    apply HFc. intros cj _. cbv zeta. apply HF. intros rj _. apply H.
+    split.
+    - now rewrite !length_put.
+    - intros a Ha. simpl in Ha.
+      rewrite put_spectator by (simpl; tauto). rewrite put_spectator by (simpl; tauto). reflexivity.
+  Qed.
+
+End Locality.
+
+Section Channel.
+  Context {V : Type}.
+  Notation tensor := (@tensor V).
+  Variable vmul vadd : V -> V -> V.
+  Variable vconj : V -> V.
+  Variable vzero : V.
+
+  (* ------------------------------------------------------------ _apply_channel *)
+
+  Lemma apply_channel_formula (Gs : list (tensor -> tensor)) n modes (rho : tensor) idx :
+    Forall (respects_shape (2 * length modes)) Gs -> good_targets n modes -> modes <> [] -> length idx = n * 2 ->
+    apply_channel vadd vzero Gs n modes rho idx
+    = fold_left (fun acc G => vadd acc (G (fun j => rho (put idx (row_axes modes ++ col_axes modes) j))
+                                          (gather idx (row_axes modes ++ col_axes modes)))) Gs vzero.
+  Proof.
+    intros HGs Hg Hne Hl. unfold apply_channel. generalize vzero.
+    induction HGs as [|G Gs HG HGs IH]; intros z; simpl; auto.
+    rewrite IH. now rewrite fock_axes_mixed by auto.
+  Qed.
+
+  Theorem locality_channel (Gs : list (tensor -> tensor)) n modes (rho rho' : tensor) idx :
+    Forall (respects_shape (2 * length modes)) Gs -> good_targets n modes -> modes <> [] -> length idx = n * 2 ->
+    (forall x, agrees_off (row_axes modes ++ col_axes modes) idx x -> rho x = rho' x) ->
+    apply_channel vadd vzero Gs n modes rho idx = apply_channel vadd vzero Gs n modes rho' idx.
+  Proof.
+    intros HGs Hg Hne Hl H. unfold apply_channel. generalize vzero.
+    induction HGs as [|G Gs HG HGs IH]; intros z; simpl; auto.
+    rewrite IH. f_equal. f_equal. now apply locality_mixed.
+  Qed.
+
+  (* ------------------------------------------------------------ mix commutes with gate application *)
+
+  (* G is "F on the rows, conj F on the columns" on product sub-states *)
+  Definition is_conjugation_of (k : nat) (F G : tensor -> tensor) : Prop :=
+    forall (s s' : tensor) r c, length r = k -> length c = k ->
+      G (fun j => vmul (s (firstn k j)) (vconj (s' (skipn k j)))) (r ++ c) = vmul (F s r) (vconj (F s' c)).
+
+  Lemma mix_unfold n (psi : tensor) idx :
+    mix vmul vconj n psi idx = vmul (psi (evens n idx)) (vconj (psi (odds n idx))).
+  Proof. reflexivity. Qed.
+
+  Theorem mixed_of_mix_is_mix_of_pure (F G : tensor -> tensor) n modes (psi : tensor) idx :
+    respects_shape (length modes) F -> respects_shape (2 * length modes) G ->
+    is_conjugation_of (length modes) F G ->
+    good_targets n modes -> modes <> [] -> length idx = n * 2 ->
+    apply_gate_mixed G n modes (mix vmul vconj n psi) idx
+    = mix vmul vconj n (apply_gate_pure F n modes psi) idx.
+  Proof.
+    intros HF HG HFG Hg Hne Hl.
+    rewrite fock_axes_mixed by auto. rewrite mix_unfold.
+    rewrite !fock_axes_pure by (auto using length_evens, length_odds).
+    rewrite gather_app, (gather_rows n), (gather_cols n) by apply Hg.
+    rewrite <- HFG by (now rewrite length_gather).
+    apply HG. intros j Hj. rewrite mix_unfold.
+    now rewrite evens_put, odds_put by auto.
+  Qed.
+
+  (* a channel applied to a pure state: mix first (what _apply_channel does) *)
+  Theorem channel_from_pure_formula (Gs : list (tensor -> tensor)) n modes (psi : tensor) idx :
+    Forall (respects_shape (2 * length modes)) Gs -> good_targets n modes -> modes <> [] -> length idx = n * 2 ->
+    apply_channel_from_pure vmul vadd vconj vzero Gs n modes psi idx
+    = fold_left (fun acc G => vadd acc (G (fun j => vmul (psi (put (evens n idx) modes (firstn (length modes) j)))
+                                                         (vconj (psi (put (odds n idx) modes (skipn (length modes) j)))))
+                                          (gather idx (row_axes modes ++ col_axes modes)))) Gs vzero.
+  Proof.
+    intros HGs Hg Hne Hl. unfold apply_channel_from_pure. rewrite apply_channel_formula by auto.
+    generalize vzero. induction HGs as [|G Gs HG HGs IH]; intros z; simpl; auto.
+    rewrite IH. f_equal. f_equal. apply HG. intros j Hj. rewrite mix_unfold.
+    now rewrite evens_put, odds_put by auto.
+  Qed.
+
+  (* ------------------------------------------------------------ alloc: new modes are appended at the end *)
+  Theorem alloc_axes (lenu : nat) (u v : tensor) idx_u idx_v :
+    length idx_u = lenu ->
+    tensordot0 vmul lenu u v (idx_u ++ idx_v) = vmul (u idx_u) (v idx_v).
+  Proof. intros <-. unfold tensordot0. now rewrite firstn_app_len, skipn_app_len. Qed.
+
+End Channel.
